@@ -602,6 +602,14 @@ class Interp:
             raise RaiseSignal('TypeError', self.cur_node, self.where(self.cur_node), (f"unhashable type: '{type(v).__name__}'",))
         if isinstance(v, SVar):
             if v.kind == 'raw' and v.term is not None and not v.members.get('is_array', False) and v.members.get('dims') in (None, []):
+                if hasattr(self.model, 'value') and hasattr(self.model, 'val'):
+                    # at a witness the number is known: Python compares keys by value (2 == 2.0)
+                    try:
+                        num = self.model.value(v)
+                    except Exception:  # noqa: BLE001
+                        num = None
+                    if num is not None:
+                        return ('number', F(num))
                 return ('number', T.show(v.term), v.dtype)  # a bare number: the same symbolic value is the same key
             raise _NoKey()  # (a scipp variable is unhashable: such a call fails on its first use, which the tests see)
         if isinstance(v, SObj):
@@ -1222,6 +1230,10 @@ class Interp:
             return list(v)
         if hasattr(v, '__iter__') and not isinstance(v, Opaque | SVar | SObj):
             return list(v)
+        if isinstance(v, SVar) and hasattr(self.model, 'var_iter'):
+            items = self.model.var_iter(self, v, node)
+            if items is not None:
+                return items
         if isinstance(v, SObj):
             it = v.cls.methods.get('__iter__')
             if it is not None:
